@@ -205,8 +205,9 @@ func checkC18(p *Program, r *Report) {
 			e := newEval(p)
 			pos := e.eval(call.Call.Args[2]).String()
 			words := e.pathOrTerm(call.Call.Args[0])
-			want1 := "conv:int32(add(-1,mul(64,len(" + words + "))))"
-			want2 := "add(-1,mul(64,len(" + words + ")))"
+			last := O("add", K(-1), mulTerms(K(64), ON("len", "", S(words))))
+			want1 := ON("conv", "int32", last).String()
+			want2 := last.String()
 			if pos != want1 && pos != want2 {
 				continue
 			}
